@@ -10,6 +10,8 @@ def run(ctx):
         return absreplay.replay(ctx, ctx.replay)      # a read/write session judged by `sfmodel abs` (vlib/rdwrtail.py run_c11)
     run_common(ctx, "C11", modules_for("C11"), stride=2 if q else 1, l1_scripts=250 if q else 2500)
     if not getattr(ctx, "replay", None):
+        from .. import blockedge     # crash points exactly ON / one frame before / one behind a codec block boundary, both update modes (deterministic)
+        blockedge.run(ctx, "C11")
         from .. import rawsnap
         rawsnap.run(ctx, "C11")      # sf_write_raw in auto-header mode: every image is a valid file with the frames written so far
         from .. import small4        # SDS whole-file sessions: the image after a header update, byte for byte (lean/SfModel/SdsFile.lean)
